@@ -1,7 +1,7 @@
 HOOK_COMMITS = []
 ENGINES = [
     {"name": "E2", "path": "mc/props/c06.py", "kind_free_text": "explicit-state breadth-first search over call histories of a real Record (state = history replayed on a fresh object, canonical state hash, invariants in every state, differential oracles)",
-     "serves_properties": ["C06", "C08"]},
+     "serves_properties": ["C06", "C08", "C11"]},
     {"name": "E4", "path": "mc/props/c20.py", "kind_free_text": "fault enumeration: every fault kind at every conversion index x every pre-existing on-disk state; directory subsets x modes",
      "serves_properties": ["C20"]},
     {"name": "E3", "path": "mc/engine/choice.py + mc/instr/setorder.py", "kind_free_text": "stateless deviation-bounded choice exploration: the iteration order of every set created in antiSMASH code (AST import hook) is a choice; default run, then every single deviation, pairs, ...",
@@ -139,4 +139,12 @@ CHECKS = {
                      "one region with areas numbered from 1 and the same kinds/products/membership/cores/leader-tail pieces, and the full record and the "
                      "Biopython record passed in are unchanged.",
                 note="Aperiodic catalogue sequence so extraction equality pins coordinates; product order compared as a multiset for linearised origin-spanning regions; one open finding (C12-F1)."),
+    "C11": dict(engine="E2", level="model_checking", ref="DESIGN.md 5/C11",
+                technique="explicit-state BFS over save/regenerate/option-change/tamper histories per results object (state = saved JSON + option vector + tamper flag, hashed), every regenerate transition executed on the real module-level regeneration against a fresh record; differential against fresh production under the changed settings",
+                text="For every results object of five families (rule detection, sideloading, NRPS/PKS domains+modules, HMMer domains, TTA) produced by "
+                     "the real producers over catalogue records, all histories up to depth 3/4 over {regenerate+save, set an option, bump/drop the schema "
+                     "field, change the record id} are explored. Under unchanged settings the re-saved JSON must be byte-identical and the effect on a "
+                     "fresh record identical; tampered results must be refused; under changed settings the result must be refused or equal a fresh run "
+                     "under those settings (or the original where the module documents the option as ignored).",
+                note="Fresh record = normalised input without antiSMASH annotations; HMMER look-ups stubbed with fixed tables; modules needing external tools to produce results are out of scope."),
 }
